@@ -42,3 +42,15 @@ func VerifInputCap() int {
 	}
 	return cap(r.input)
 }
+
+// VerifTrackedCount is the number of entries of the state table (len(GetStateTable()) without the
+// nil dereference when the reactor is gone); -1 without a reactor.
+func VerifTrackedCount() int {
+	r := globalReactor
+	if r == nil {
+		return -1
+	}
+	n := 0
+	r.stateTable.Range(func(_, _ interface{}) bool { n++; return true })
+	return n
+}
